@@ -925,6 +925,16 @@ class Interp:
             if isinstance(op, ast.NotEq):
                 return le != re_
             raise Unsupported("ordering comparison of symbolic strings", node)
+        if (is_z3(l) and isinstance(r, float) and r in (float("inf"), float("-inf"))) or (is_z3(r) and isinstance(l, float) and l in (float("inf"), float("-inf"))):
+            # a real number against +-inf
+            inf_left = isinstance(l, float)
+            pos = (l if inf_left else r) > 0
+            if isinstance(op, (ast.Eq, ast.NotEq)):
+                return isinstance(op, ast.NotEq)
+            less = isinstance(op, (ast.Lt, ast.LtE))  # "x < inf"
+            if inf_left:
+                less = not less                       # "inf < x"  <=>  "x > inf"
+            return (less and pos) or (not less and not pos)
         if is_z3(l) or is_z3(r):
             if l is None or r is None or isinstance(l, str) or isinstance(r, str):
                 if isinstance(op, ast.Eq):
